@@ -9,6 +9,9 @@ pub fn eval(op: &str) -> String {
     if op.split_whitespace().nth(1) == Some("doc") {
         return eval_c20_doc(op);
     }
+    if op.split_whitespace().nth(1) == Some("docrt") {
+        return eval_c20_docrt(op);
+    }
     if let Some(r) = crate::adevgen::eval_dev_any(op) {
         return r;
     }
@@ -18,6 +21,33 @@ pub fn eval(op: &str) -> String {
 
 pub fn expand(_op: &str) -> Vec<String> {
     vec![]
+}
+
+/// `C20 docrt <region> <hex of a WELL-FORMED session document>`: it must be accepted, the restored
+/// session must re-serialise to the same JSON value, and it is then exercised like `doc`.
+fn eval_c20_docrt(op: &str) -> String {
+    let w: Vec<&str> = op.split_whitespace().collect();
+    if w.len() != 4 {
+        return "bad-op".into();
+    }
+    let doc = String::from_utf8_lossy(&unhex(w[3])).to_string();
+    let want: serde_json::Value = match serde_json::from_str(&doc) {
+        Ok(v) => v,
+        Err(_) => return "bad-op".into(),
+    };
+    let r = std::panic::catch_unwind(|| match serde_json::from_str::<lorawan_device::mac::Session>(&doc) {
+        Err(e) => format!("FAIL:well-formed-document-rejected:{}", e.to_string().replace(' ', "_")),
+        Ok(s) => match serde_json::to_value(&s) {
+            Ok(got) if got == want => "ok".to_string(),
+            Ok(_) => "FAIL:restored-session-serialises-differently".to_string(),
+            Err(_) => "FAIL:restored-session-does-not-serialise".to_string(),
+        },
+    });
+    match r {
+        Ok(v) if v == "ok" => eval_c20_doc(&op.replacen(" docrt ", " doc ", 1)),
+        Ok(v) => format!("doc-handled ## oracle={}", v),
+        Err(_) => "doc-handled ## oracle=FAIL:PANIC-on-deserialised-session".into(),
+    }
 }
 
 fn mutate_doc(rng: &mut Rng, v: &mut serde_json::Value) {
@@ -130,5 +160,41 @@ pub fn run(tier: &str, seed: u64, dir: &str) {
         let op = format!("C20 doc {} {}", rng.pick(&REGIONS), hex(doc.as_bytes()));
         sink.case(&op, &eval(&op), "mutated-document", true);
     }
-    sink.finish(dir, "MAC histories with a serialise/deserialise round trip of the session after every event (restored session must equal the original in every field and the run must continue exactly like the model's unsaved twin), starting counters at 16/32-bit boundaries, pending answers up to 15 bytes; plus structurally mutated JSON documents (type changes, missing/duplicate/extra fields, pending_len 0..255, arrays of 14/15/16, huge numbers): rejected, or accepted and then exercised without panic. Non-trivial = every case.", false, serde_json::json!({}));
+    // well-formed documents over the value space of the fields: keys with any octets (all 0x00, all
+    // 0xFF, single 0x00 / 0xFF octets, random), any address and counters at the boundaries
+    for k in 0..(if thorough { 4000 } else { 400 }) {
+        use serde_json::json;
+        let mut v = base.clone();
+        for key in ["nwkskey", "appskey"] {
+            let mut b = rng.bytes(16);
+            match (k + if key == "appskey" { 3 } else { 0 }) % 8 {
+                0 => b = vec![0xff; 16],
+                1 => b = vec![0; 16],
+                2 => b[rng.below(16) as usize] = 0xff,
+                3 => b[rng.below(16) as usize] = 0,
+                4 => b = (0..16).map(|i| (i * 0x11) as u8).collect(),
+                _ => {}
+            }
+            if v.get(key).map(|x| x.is_array()).unwrap_or(false) {
+                v[key] = json!(b);
+            } else if let Some(o) = v.get(key).and_then(|x| x.as_object()) {
+                // a wrapped representation: replace the first array found one level down
+                let mut o = o.clone();
+                for (_, x) in o.iter_mut() {
+                    if x.is_array() {
+                        *x = json!(b.clone());
+                    }
+                }
+                v[key] = serde_json::Value::Object(o);
+            }
+        }
+        if v.get("fcnt_up").map(|x| x.is_number()).unwrap_or(false) {
+            let r = rng.next() as u32;
+            v["fcnt_up"] = json!(*rng.pick(&[0u32, 1, 0xffff, 0x1_0000, 0xffff_fffe, 0xffff_ffff, r]));
+        }
+        let doc = v.to_string();
+        let op = format!("C20 docrt {} {}", rng.pick(&REGIONS), hex(doc.as_bytes()));
+        sink.case(&op, &eval(&op), "well-formed-document-values", true);
+    }
+    sink.finish(dir, "MAC histories with a serialise/deserialise round trip of the session after every event (restored session must equal the original in every field and the run must continue exactly like the model's unsaved twin), starting counters at 16/32-bit boundaries, pending answers up to 15 bytes; plus structurally mutated JSON documents (type changes, missing/duplicate/extra fields, pending_len 0..255, arrays of 14/15/16, huge numbers): rejected, or accepted and then exercised without panic; plus well-formed documents over the value space of keys (any octets), address and counters: accepted and re-serialised to the same JSON value. Non-trivial = every case.", false, serde_json::json!({}));
 }
